@@ -57,15 +57,16 @@ fn show_error(
         .chars()
         .count()
         + 1;
+    // The caret is not placed with a `{:>pos$}` width: format widths
+    // are limited to u16::MAX and a larger one panics.
     writeln!(
         out,
         "{prefix}{:>4}:{}\n\
-         {prefix}     {:>pos$} {}",
+         {prefix}     {}^ {}",
         line_no,
         line,
-        "^",
+        " ".repeat(pos_in_line - 1),
         msg,
-        pos = pos_in_line,
         prefix = prefix,
     )
     .unwrap();
